@@ -98,7 +98,9 @@ var zSafeDirs = []string{"", "", "", "b/", "b/c/", "x/y/z/", "internal/", "cmd/t
 	"sub/", "sub/deep/", "s2/", "vendor/", "vendor/x/", "vendor/x/y/", "pkg/vendor/", "pkg/vendor/foo/", "pkg/vendor/x/vendor/y/",
 	"vendorx/a/", "xvendor/a/", "vendor/vendor/", "pkg/vendor/x/vendor/", "vendor/x/vendor/", "go.mod/", "sub/go.mod/", "pkg/"}
 var zSafeBases = []string{"a.go", "c.go", "main.go", "x_test.go", "foo.go", "README", "LICENSE", "LICENSE.md", "modules.txt", "vendor.go", "vendor",
-	"é.go", "\u212A.go", "ß.txt", "ss.txt", "σ", "ǆ", "ſ.go", "µ.go", "θ", "ª", "ж.go", "日本語.txt", "go.mod.bak", ".hidden", ".gitignore", ".git", "-dash", "_",
+	"é.go", "\u212A.go", "ß.txt", "ss.txt", "σ", "ǆ", "ſ.go", "µ.go", "θ", "ª", "ж.go",
+	// letters whose case-folding orbit has three or more members (a one-step fold does not normalise them)
+	"ς.go", "Ω.go", "ω", "å.txt", "\u212B", "вход.go", "В", "ι.txt", "ϑ.go", "ǅ.txt", "ᲀ", "ϐ", "ϕ.go", "ϖ", "ϱ", "ϵ", "ẛ", "ᲈ", "日本語.txt", "go.mod.bak", ".hidden", ".gitignore", ".git", "-dash", "_",
 	"dollar$", "at@", "plus+", "hash#", "excl!", "eq=", "caret^", "br[ack]et", "{brace}", "pa(ren)", "amp&", "pct%", "com,ma", "tilde~",
 	"sp ace.go", " lead", "con1", "com10", "conx", "x.con", "nul_", ".hg_archival.txt", "go.mod", "sum.golang.org"}
 
